@@ -56,6 +56,12 @@ NEEDS = {
  "r4-C13-pending-newline-at-eof": ("C13", "-n and a source that ends with an output-producing directive preceded by a text line"),
  "r4-C15-empty-remainder-continuation": ("C15", "a continuation candidate that is exactly whitespace + prefix (prefix ending in whitespace) or whitespace + as many spaces as the prefix is long, with an empty remainder"),
  "r4-C17-guard-needs-existing-file": ("C17", "TXTPP_FILE set to a value that does not name an existing file relative to the new process's working directory (any source below the base directory)"),
+ "r5-C02-dotted-stem-include-probe": ("C02", "an include/after whose target has a dotted stem and a stem.txtpp.ext source (table.v2.txtpp.csv): the dependency is not recognised, the directive reads whatever is on disk"),
+ "r5-C03-no-canonicalize-absolute": ("C03", "one source reaching the coordinator under two spellings that differ by a `..` component (an include through ../ plus a scan / another route)"),
+ "r5-C04-verify-buffer-not-filled": ("C04", "verify of an output on disk that is the fresh output plus trailing bytes, the fresh length being 0 or a multiple of 8192"),
+ "r5-C06-done-skipped-without-newline": ("C06", "verify when no final newline is due at end of file (every file under -n; a source ending in output-less directives): bytes appended to the output go unnoticed"),
+ "r5-C08-second-pass-keeps-temp": ("C08", "a source with a .txtpp dependency and a temp directive after the dependency line, a leftover file at the temp path"),
+ "r5-C10-clean-removes-temp-dir": ("C10", "clean of a temp target that lives in another directory than its source, the directory holding nothing else"),
 }
 for d in sorted(glob.glob("/verif/seeded/*/")):
     name = os.path.basename(d.rstrip("/"))
@@ -75,7 +81,7 @@ for d in sorted(glob.glob("/verif/seeded/*/")):
             checks[k] = v
     if not checks:
         checks = dict(re.findall(r"check (C\d+) exit (\d+)", txt))
-    prop, needs = NEEDS.get(name, (name[3:6] if name[:3] in ("r2-", "r3-", "r4-") else name[:3], "see README.md"))
+    prop, needs = NEEDS.get(name, (name[3:6] if name[:3] in ("r2-", "r3-", "r4-", "r5-") else name[:3], "see README.md"))
     meta = dict(
         name=name, breaks_property=prop, needs_to_manifest=needs,
         origin="written by an independent sub-agent that saw only the property text and a scratch worktree of the repository",
